@@ -71,15 +71,16 @@ theorem C09_I2_ids (c : LoopCfg) (env : Env) (b : Bucket) (evs : List Ev)
 /-- **The decision at `beforeInfo`**, for any state: with `lastTxn > lastSynced` and the own
     instance not waited for, the loop sets `lastSynced := lastTxn` and goes on to `SendOnce`. The
     branch "LMDB is empty, waiting for data" (`¬ hasDataAtStart ∧ lastSynced = 0` after the
-    assignment) cannot be taken on this path: `lastTxn > lastSynced ≥ 0`. (The model has no forced
-    snapshot interval; in the code that branch is reachable only through `snapshotOverdue`.) -/
+    assignment) cannot be taken on this path: `lastTxn > lastSynced ≥ 0`. (That branch is
+    reachable only through `snapshotOverdue`: an armed force flag with an empty LMDB. The
+    statement holds whether or not the force flag is armed.) -/
 theorem C09_startup_guard_dead (c : LoopCfg) (b : Bucket) (s : St) (i : In)
     (hpc : s.pc = .beforeInfo) (hgt : s.env.lastTxn > s.lastSynced)
     (hown : c.own ∉ s.waiting) :
     (go c b s i).1.pc = .beforeSend ∧ (go c b s i).1.lastSynced = s.env.lastTxn ∧
     (go c b s i).1.env = s.env := by
   obtain ⟨g1, _, g3, g4⟩ := go_pc c b s i
-  rw [g1, g3, g4, goRaw_beforeInfo hpc, if_pos hgt, if_neg (by simpa using hown),
+  rw [g1, g3, g4, goRaw_beforeInfo hpc, if_pos (Or.inl hgt), if_neg (by simpa using hown),
     if_pos (Or.inr (by omega))]
   exact ⟨rfl, rfl, rfl⟩
 
